@@ -7,7 +7,9 @@ Import ListNotations.
 From Goat Require Import Base.Explore Model.Client Model.Server Check.ServerC.
 Open Scope Z_scope.
 
-Inductive c10case := C10Run (c : svcase).
+Inductive c10case :=
+| C10Run (c : svcase)
+| C10Dead (wedged : bool).   (* the server process died (false) or never became quiescent again (true) in this scenario *)
 
 Definition invoked_of (l : list sev) : list Z :=
   filter_map (fun e => match e with SvInvoke h _ _ _ _ _ => Some (Z.of_nat h) | _ => None end) l.
@@ -65,6 +67,7 @@ Definition check_case_f (fuel : nat) (c : c10case) : list nat :=
       | [] => check_agree_f fuel sc
       | rs => rs
       end
+  | C10Dead wedged => if wedged then [8%nat] else [7%nat]
   end.
 
 Fixpoint find_bad_fuel (fuel i : nat) (cs : list c10case) : list (nat * list nat) :=
